@@ -459,6 +459,14 @@ class C16(Prop):
             k += 1
 
     def real(self, op, args):
+        try:
+            return self._real(op, args)
+        except MemoryError:
+            # an absurd p_filesz/size read from an on-disk ELF makes CPython try to allocate the buffer: an
+            # environment limit (depends on the machine's memory), outside the model and outside the property
+            return core.RESOURCE_LIMIT
+
+    def _real(self, op, args):
         from packaging import _manylinux, _musllinux, tags
         try:
             if op in ("plat.manylinux", "plat.musllinux"):
@@ -495,6 +503,8 @@ class C16(Prop):
             if op == "plat.ios":
                 with T.probes({"ios": [core.dec(args[0]), core.dec(args[1])]}):
                     return out_list(list(tags.ios_platforms(dec_pair(args[2]), core.dec(args[3]))))
+        except MemoryError:
+            raise
         except Exception as e:
             return "raw " + type(e).__name__
         if op == "elf.parse":
